@@ -241,6 +241,59 @@ def chk(ctx, rule, fn, line, what, cond, okmsg, badmsg):
         ctx.finding(rule, fn, what, badmsg, line=line)
 
 
+CONTAINER_KINDS = ("Array", "Object")
+
+
+def kind_edges(fx, fn, pidx, keep):
+    """A6 over the JSON kind of parameter pidx: edges of discriminant switches on the parameter that contradict `kind in keep`"""
+    removed = []
+    n = 0
+    for (b, subj) in common.discr_switches(fn):
+        sj = peel(subj)
+        if not (sj.kind == "param" and sj.d["idx"] == pidx):
+            continue
+        n += 1
+        t = fn.term(b)
+        listed = {}
+        for (v, tgt) in t["targets"]:
+            listed[fx.variant_name("serde_json::Value", v)] = tgt
+        for nm, tgt in listed.items():
+            if nm not in keep:
+                removed.append((b, tgt))
+        if all(k in listed for k in keep):
+            removed.append((b, t["otherwise"]))
+    return removed, n
+
+
+def passthrough_kinds(ctx, fx, W, rule):
+    """the full walker hands a value back unprocessed (an Ok whose payload is a copy of its parameter) only for scalar JSON kinds: with the
+    parameter assumed to be an Array / an Object, no such exit is reachable, however the arms and guards are arranged"""
+    ps = [i for i in range(1, W.arg_count + 1) if (W.local_ty(i) or "") == "&serde_json::Value"]
+    wv = vals(W)
+    if not ps:
+        return
+    p = ps[0]
+    raw_exits = []
+    for e in cfg.exit_sites(W):
+        if e["kind"] == "Ok" and "rv" in e:
+            v = wv._rv(e["rv"], e["bb"], e["idx"])
+            inner = peel(v.kids[0]) if v.kids else None
+            if inner is not None and inner.kind == "param" and inner.d["idx"] == p:
+                raw_exits.append(e)
+    for kind in CONTAINER_KINDS:
+        rem, nsw = kind_edges(fx, W, p, (kind,))
+        if nsw == 0:
+            ctx.missing(rule, "kind dispatch", "%s does not switch on the JSON kind of its parameter" % W.name)
+            return
+        r = cfg.reachable(W, [0], removed_edges=rem)
+        bad = [e for e in raw_exits if e["bb"] in r]
+        if bad:
+            ctx.finding(rule, W, "passthrough:%s" % kind, "a JSON %s can be returned as it is, without being unpacked (a guard or fast path lets it reach the scalar arm): "
+                        "`_sd` / `...` placeholders beneath it survive in the verified claims and their disclosures are ignored" % kind.lower(), line=bad[0]["line"])
+        else:
+            ctx.ok(rule, W, "passthrough:%s" % kind, "with the parameter a JSON %s no exit returns it unprocessed (%d raw-copy exit(s) exist for scalars only)" % (kind.lower(), len(raw_exits)))
+
+
 def v6(ctx, fx, U, rule):
     """every value that is placed in the output — a disclosed member, a disclosed array element, a copied payload member, a pushed
     array element — is the result of the full recursive walker, on every path (no shallow 'nothing hidden here' shortcut)"""
@@ -248,6 +301,7 @@ def v6(ctx, fx, U, rule):
     if W is None:
         ctx.missing(rule, "walker", "cannot identify the recursive `&Value -> Result<Value>` walker")
         return
+    passthrough_kinds(ctx, fx, W, rule)
     n = 0
     for (fn, b, node, lk) in U.obj_sinks:
         n += 1
